@@ -13,13 +13,33 @@ type NDEv struct {
 	K     string `json:"k"` // "nd"
 	Neg   bool   `json:"neg"`
 	B     []int  `json:"b"`
+	P10   int    `json:"p10"` // >= 0: the value is 10^p10 + dl (too long to spell out); b is empty then
+	Dl    int    `json:"dl"`
 	ND    int    `json:"nd"`
 	Panic string `json:"panic"`
 	Key   string `json:"key"`
 }
 
+func mkNDPow(neg bool, k, dl int) (ev NDEv) {
+	ev = NDEv{K: "nd", Neg: neg, B: []int{}, P10: k, Dl: dl, Key: fmt.Sprintf("numdigits|%v10^%d%+d", map[bool]string{true: "-", false: ""}[neg], k, dl)}
+	defer func() {
+		if r := recover(); r != nil {
+			ev.Panic = fmt.Sprint(r)
+		}
+	}()
+	b := new(big.Int).Exp(big.NewInt(10), big.NewInt(int64(k)), nil)
+	b.Add(b, big.NewInt(int64(dl)))
+	if neg {
+		b.Neg(b)
+	}
+	var z apd.BigInt
+	z.SetMathBigInt(b)
+	ev.ND = int(apd.NumDigits(&z))
+	return ev
+}
+
 func mkND(neg bool, limbs []int) (ev NDEv) {
-	ev = NDEv{K: "nd", Neg: neg, B: limbs}
+	ev = NDEv{K: "nd", Neg: neg, B: limbs, P10: -1}
 	b := bigOfLimbs(limbs)
 	if neg {
 		b.Neg(b)
@@ -44,6 +64,9 @@ func init() {
 		var ev NDEv
 		if err := json.Unmarshal(line, &ev); err != nil {
 			panic(err)
+		}
+		if ev.P10 >= 0 {
+			return mkNDPow(ev.Neg, ev.P10, ev.Dl)
 		}
 		return mkND(ev.Neg, ev.B)
 	}
@@ -71,6 +94,14 @@ func init() {
 				emit(p)
 			}
 			p = new(big.Int).Mul(p, ten)
+		}
+		// every decimal-digit boundary up to 10^12000 (40 000 bits), given symbolically
+		for k := 1301; k <= g.pick(12000, 30000); k++ {
+			if !g.thorough() && k%2 == 0 && k > 2000 && k%643 != 0 {
+				continue
+			}
+			g.emit(mkNDPow(k%3 == 0, k, 0), "pow10")
+			g.emit(mkNDPow(k%3 == 1, k, -1), "pow10")
 		}
 		n := g.pick(20000, 400000)
 		for i := 0; i < n; i++ {
